@@ -1,6 +1,6 @@
 #!/usr/bin/env python3
 """Per-property query lists (what is encoded, with which bounds). See DESIGN.md section 7."""
-import itertools
+import itertools, os
 from vcheck import Query
 
 COMMON_ASSUMPTIONS = [
@@ -488,6 +488,7 @@ def c14(tier):
         qs.append(mk('lr_writer_solo_after_readers_R2', 'c03_lr.cpp', [W, R1, R2], 2, solo=[['R1', 'R2', 'W']], defines=['NWRITES=2', 'NREADS=1'], **lr_ro))
         qs.append(rq('rcu_reader_solo_after_writer_R2', 'AB', 2, order=(1, 0), defines=d, solo=[['A']]))
         qs.append(rq('rcu_writer_solo_after_reader_R2', 'AB', 2, order=(0, 1), defines=d, solo=[['A', 'B']]))
+        qs.append(cowq('cow_reader_solo_after_writer_R2', 'WR', 2, order=(0, 1), defines=['WMODE=0', 'NSNAP=1'], solo=[['R']], timeout=1500))
     else:
         for o in orders(3, 'all'):
             s_ = ''.join(map(str, o))
@@ -504,7 +505,7 @@ SPECS['C14'] = dict(queries=c14, assumptions=SPECS['C03']['assumptions'][:-1] + 
     "query shape: R rounds of arbitrary interleaving (this suspends every writer at an arbitrary visible step), then the thread under test is the only one scheduled, with "
     "an unlimited budget: it must run to completion; a blocking primitive whose condition is false, or a fair-spin yield that nobody can release, ends the run unfinished",
     "converse queries: after the prefix all readers run to completion and then the writer alone must complete (no deadlock / livelock between readers and writers)"],
-    outside=["the cow_guarded clause is decided by the C04 harness queries listed there", "more than 3 threads; prefixes longer than R rounds"])
+    outside=["cow_guarded: one writer (commit) against one reader, lock_shared only (its try form forwards to the same lr_guarded path, decided in C04 thorough)", "more than 3 threads; prefixes longer than R rounds"])
 
 
 # ------------------------------------------------------------------------------------------------ C19
@@ -580,12 +581,14 @@ def c20(tier):
         qs.append(tq('atomic_throw_xchg_cas', 'atomic_guarded', [['XCHG', 'LOAD'], ['CAS', 'STORE']], 3))
         qs.append(tq('atomic_throw_assign_ordered_store', 'atomic_guarded', [['ASSIGN', 'XCHG'], ['LOAD', 'CAS']], 3))
         qs.append(tq('ordered_throw_store_load', 'ordered_guarded', [['STORE', 'LOAD'], ['ASSIGN', 'MODIFY']], 3))
+        qs.append(tq('ordered_throw_modifyv_readv', 'ordered_guarded', [['MODIFYV', 'READV'], ['READV', 'MODIFYV']], 3))
     else:
         qs.append(mk('lr_throw_writer_reader_R4', 'c20_throw.cpp', [Wt, Rd], 4, cover=3, **dict(lr, timeout=3000)))
         for od in orders(3, 'all'):
             qs.append(mk('lr_throw_w_r_w2_R3_o' + ''.join(map(str, od)), 'c20_throw.cpp', [Wt, Rd, W2], 3, order=od, cover=7, **dict(lr, timeout=3000)))
         qs.append(tq('ordered_throw_modify_read_R4', 'ordered_guarded', [['MODIFY', 'READ'], ['READ', 'MODIFY']], 4, timeout=3000))
         qs.append(tq('ordered_throw_store_load_R3', 'ordered_guarded', [['STORE', 'LOAD'], ['ASSIGN', 'MODIFY']], 3, timeout=3000))
+        qs.append(tq('ordered_throw_modifyv_readv_R4', 'ordered_guarded', [['MODIFYV', 'READV'], ['READV', 'MODIFYV']], 4, timeout=3000))
         qs.append(tq('guarded_throw_store_load_R4', 'guarded', [['STORE', 'LOAD'], ['ASSIGN', 'LOAD']], 4, timeout=3000))
         qs.append(tq('atomic_throw_xchg_cas_R4', 'atomic_guarded', [['XCHG', 'LOAD'], ['CAS', 'STORE']], 4, timeout=3000))
         qs.append(tq('atomic_throw_cas_cas_R3', 'atomic_guarded', [['CAS', 'ASSIGN'], ['CAS', 'XCHG']], 3, timeout=3000))
@@ -720,6 +723,28 @@ SPECS['C06'] = dict(queries=c06, assumptions=COMMON_ASSUMPTIONS + [
     outside=["quick tier: every genuinely concurrent schedule (seeded change C06-s1 - a drainer that cleared the pending flag but has not taken the lock yet while a direct-path submitter runs - is caught only by the thorough query deferred_reader2_detach2_R2)",
              "three or more threads, more than two rounds, two readers against two submitters",
              "exceptions thrown by queued functors"])
+
+
+# ------------------------------------------------------------------------------------------------ C16
+def c16(tier):
+    qs = []
+    A, D, O2 = ('A', 'vp_adder'), ('D', 'vp_destroyer'), ('O', 'vp_owner2')
+    # container plumbing (vector growth / erase / remove_if / find, std::function copies) runs atomically: it is executed either under
+    # destructionLock or on vectors local to destroyObjects; shared_ptr reference counts, the timed mutex and the user callbacks interleave
+    NI = ['@_ZNSt6vectorISt10shared_ptr*', '@_ZNSt6vectorIPv*', '@_ZNSt12_Vector_base*', '@_ZSt9__find_if*', '@_ZSt11__remove_if*', '@_ZSt8__find_if*',
+          '@_ZNSt8functionIF*', '@_ZNSt14_Function_base*']
+    def dq(name, threads, rounds, defines, order=None, **kw):
+        kw.setdefault('timeout', 1500)
+        kw.setdefault('unwind', 4)
+        return mk(name, 'c16_delayed.cpp', threads, rounds, order=order, final='vp_final', cover=(1 << len(threads)) - 1, defines=defines,
+                  opts={'yield_blocks': False, 'noinline': NI}, object_bits=12, **kw)
+    qs.append(dq('dd_adder_destroyer_R2', [A, D], 2, [], unwind=3, solvers=('kissat',), mem_gb=20))
+    qs.append(dq('dd_adder_destroyer_preload_R2', [A, D], 2, ['PRELOAD2'], unwind=3, solvers=('kissat',), mem_gb=20))
+    return qs
+
+
+if os.environ.get('VP_EXPERIMENTAL'):
+    SPECS['C16'] = dict(queries=c16, assumptions=COMMON_ASSUMPTIONS, outside=[])
 
 
 # ------------------------------------------------------------------------------------------------ not claimed
